@@ -17,7 +17,7 @@ NAME = "B8"
 PROPERTY = "C08"
 RUNS = {"quick": 200, "thorough": 5000}
 RUN_WALL_CAP = 180.0
-REQUIRED_PROBES = {"quick": ["rectangular", "degenerate_row", "reps_gt_1", "quantum_bracketed", "npa1_compared", "method_repeated", "tol_given", "quantum_gap", "two_objects_same_shape", "disconnected_question_graph"], "thorough": ["rectangular", "degenerate_row", "reps_gt_1", "reps_3", "quantum_bracketed", "npa1_compared", "method_repeated", "tol_given", "quantum_gap"]}
+REQUIRED_PROBES = {"quick": ["np_matrix_input", "rectangular", "degenerate_row", "reps_gt_1", "quantum_bracketed", "npa1_compared", "method_repeated", "tol_given", "quantum_gap", "two_objects_same_shape", "disconnected_question_graph"], "thorough": ["rectangular", "degenerate_row", "reps_gt_1", "reps_3", "quantum_bracketed", "npa1_compared", "method_repeated", "tol_given", "quantum_gap"]}
 COMPONENTS = {"real": ["toqito.nonlocal_games.XORGame (constructor, quantum_value, classical_value, nonsignaling_value, to_nonlocal_game)", "NonlocalGame.classical_value / nonsignaling_value / commuting_measurement_value_upper_bound(1)", "toqito.helper.npa_constraints", "cvxpy + SCS/Clarabel"], "stub": []}
 RULE = ("one run = one XORGame object, sometimes with a second object of the same shape used in between (1..5 x 1..5 questions, rectangular, zero rows/columns, uniform / skewed distributions, disconnected question graphs with a satisfiable and a frustrated component, predicate dtype int/bool/float/int8/uint8/uint64, containers ndarray / np.matrix / Fortran order / strided view, the caller editing a converted game it was handed, reps 1..3, tol given or defaulted) and 3..6 "
         "value-method calls in seeded order with repetition; reference = rigorous bracket [bias of explicit unit vectors, dual-feasible certificate] from own SDPs, +/-1 enumeration, LP; "
